@@ -201,7 +201,7 @@ def run_batch(ck, req, meta, stats, origin):
 
 
 def run(ck):
-    n = 300 if ck.quick() else 6000
+    n = 520 if ck.quick() else 7000
     bad = vlib.step_lean(ck, "RlModel.Thm.C11", THEOREMS, extra_targets=["drv_c11"])
     ok, log = vlib.step_cargo(ck, ["c11"])
     if not ok:
